@@ -1489,6 +1489,20 @@ std::string Generator::GeneratorImpl::generateCode(const AnalyserEquationAstPtr 
                 code = mProfile->commonLogarithmString() + "(" + generateCode(astRightChild) + ")";
             } else {
                 code = mProfile->naturalLogarithmString() + "(" + generateCode(astRightChild) + ")/" + mProfile->naturalLogarithmString() + "(" + stringValue + ")";
+
+                // The code is a division, so it needs parentheses wherever a
+                // division would need them.
+
+                auto astParent = ast->parent();
+
+                if ((astParent != nullptr)
+                    && ((astParent->type() == AnalyserEquationAst::Type::DIVIDE)
+                        || (astParent->type() == AnalyserEquationAst::Type::DEGREE)
+                        || (mProfile->hasPowerOperator()
+                            && ((astParent->type() == AnalyserEquationAst::Type::POWER)
+                                || (astParent->type() == AnalyserEquationAst::Type::ROOT))))) {
+                    code = "(" + code + ")";
+                }
             }
         } else {
             code = generateOneParameterFunctionCode(mProfile->commonLogarithmString(), ast);
